@@ -3,7 +3,7 @@ import importlib, random
 from fractions import Fraction
 import numpy as np
 from .. import tlc, cases
-from ..core import time_limit
+from ..core import time_limit, Unchanged
 
 LIM = 20000
 
@@ -119,6 +119,7 @@ def one(cid, est, rng, big, wide=False):
         except Exception as e:
             c["reused"] = "failed: %s" % type(e).__name__
     use_factory = est in ("molecular", "vanraden") and rng.random() < 0.3
+    guard = Unchanged(genotype_matrix=gm, **{k_: v_ for k_, v_ in kw.items() if isinstance(v_, np.ndarray)})
     try:
         with time_limit(30), np.errstate(all="ignore"):
             if use_factory:
@@ -158,6 +159,9 @@ def one(cid, est, rng, big, wide=False):
             ev = np.linalg.eigvalsh((G + G.T) / 2.0)
             if ev.min() < -1e-9 * max(1.0, abs(np.trace(G))):
                 num.append("not-positive-semidefinite")
+            ch = guard.changed()
+            if ch:
+                num.append("arguments-modified:" + ",".join(ch))
             c["numeric"] = num
     except Exception as e:
         c["err"] = "%s: %s" % (type(e).__name__, str(e)[:160])
